@@ -10,13 +10,13 @@ ALL = [f"C{i:02d}" for i in range(1, 21)]
 RUNNER_NOTE = ("Trusted: Coq kernel + vm_compute; hand-written model Runner.v of state.py/retry_helpers.py/runner/*.py (tied to /repo "
                "by the correspondence run on generated scripts; its handle_failure, backoff and iter/run additionally proved equal to the "
                "translated _RetryState._handle_failure, sleep protocol and loop bodies of sync_core.py/async_core.py: pyir_failure.py + "
-               "PyIRF.v, pyir_sleep.py + PyIRS.v, pyir_loop.py + PyIRL.v are trusted for that); scripted-world Python driver, virtual "
+               "PyIRF.v, pyir_sleep.py + PyIRS.v, pyir_loop.py + PyIRL.v, pyir_state.py + PyIRE.v are trusted for that); scripted-world Python driver, virtual "
                "clock, hand-driven coroutines, a real asyncio loop on virtual time under attempt_timeout_s; assumptions: time passes "
                "only in operation and sleeper, decision callbacks do not raise, 1/64 s time grid.")
 
 CHECKS = {
     "C01": (
-        "Coq proof (loop invariants by induction over the retry loop via a characterisation of one iteration) tied by in-Coq trace correspondence (projection: invocations); the retry loop is additionally tied by translation on every run: _RetryState._handle_failure = Runner.handle_failure (PyIRF.v), the sleep protocol of retry_helpers.py = Runner.backoff (PyIRS.v), the loop bodies of sync_core.py / async_core.py iterated = Runner.run (PyIRL.v)",
+        "Coq proof (loop invariants by induction over the retry loop via a characterisation of one iteration) tied by in-Coq trace correspondence (projection: invocations); the retry loop is additionally tied by translation on every run: _RetryState._handle_failure = Runner.handle_failure (PyIRF.v), the sleep protocol of retry_helpers.py = Runner.backoff (PyIRS.v), the loop bodies of sync_core.py / async_core.py iterated = Runner.run (PyIRL.v), _RetryState.emit / check_abort / record_failure and the timeline hook = Runner.emit / Runner.check_abort / the last_fail update (PyIRE.v)",
         "Theorems C01_* (invocations <= max_attempts, no invocation after a non-retryable class, per-class and UNKNOWN retry "
         "caps, fresh counters per call) hold for all configurations, outcome/timing/abort/handler environments and call "
         "sequences of the Gallina model of the retry loop; the model's invocation trace is compared inside Coq with /repo's on "
@@ -24,7 +24,7 @@ CHECKS = {
         RUNNER_NOTE, "DESIGN.md §4 C01",
     ),
     "C02": (
-        "Coq proof (loop-top invariant `top` by induction over the retry loop: every later attempt starts within the deadline; per-iteration sleep bound from the verdict; total-sleep potential argument) tied by in-Coq trace correspondence (projection: times of invocations and sleeps, requested delays) under a virtual monotonic clock with a jumping wall clock; the retry loop is additionally tied by translation on every run: _RetryState._handle_failure = Runner.handle_failure (PyIRF.v), the sleep protocol of retry_helpers.py = Runner.backoff (PyIRS.v), the loop bodies of sync_core.py / async_core.py iterated = Runner.run (PyIRL.v)",
+        "Coq proof (loop-top invariant `top` by induction over the retry loop: every later attempt starts within the deadline; per-iteration sleep bound from the verdict; total-sleep potential argument) tied by in-Coq trace correspondence (projection: times of invocations and sleeps, requested delays) under a virtual monotonic clock with a jumping wall clock; the retry loop is additionally tied by translation on every run: _RetryState._handle_failure = Runner.handle_failure (PyIRF.v), the sleep protocol of retry_helpers.py = Runner.backoff (PyIRS.v), the loop bodies of sync_core.py / async_core.py iterated = Runner.run (PyIRL.v), _RetryState.emit / check_abort / record_failure and the timeline hook = Runner.emit / Runner.check_abort / the last_fail update (PyIRE.v)",
         "Theorems C02_attempt_start, C02_sleep_within_remaining, C02_total_sleep, C02_no_retry_at_deadline, "
         "C02_measured_from_call_start hold for all configurations, environments (durations, overshoots, strategy returns incl. "
         "NaN/inf/negative), start times and budget states of the Gallina model of the retry loop, on the code's own "
@@ -33,7 +33,7 @@ CHECKS = {
         RUNNER_NOTE, "DESIGN.md §4 C02",
     ),
     "C03": (
-        "Coq proof (iff characterisation of one loop iteration by a pure verdict function; budget/sleep iff; stop-reason soundness) tied by in-Coq trace correspondence (projection: invocations, budget, retry/terminal events, handler, sleeps, polls); the retry loop is additionally tied by translation on every run: _RetryState._handle_failure = Runner.handle_failure (PyIRF.v), the sleep protocol of retry_helpers.py = Runner.backoff (PyIRS.v), the loop bodies of sync_core.py / async_core.py iterated = Runner.run (PyIRL.v)",
+        "Coq proof (iff characterisation of one loop iteration by a pure verdict function; budget/sleep iff; stop-reason soundness) tied by in-Coq trace correspondence (projection: invocations, budget, retry/terminal events, handler, sleeps, polls); the retry loop is additionally tied by translation on every run: _RetryState._handle_failure = Runner.handle_failure (PyIRF.v), the sleep protocol of retry_helpers.py = Runner.backoff (PyIRS.v), the loop bodies of sync_core.py / async_core.py iterated = Runner.run (PyIRL.v), _RetryState.emit / check_abort / record_failure and the timeline hook = Runner.emit / Runner.check_abort / the last_fail update (PyIRE.v)",
         "Theorems C03_* (continue iff permitted; budget asked iff static conditions; sleep iff; no backoff after the last "
         "permitted attempt; stop reason sound) for all configurations/environments of the Gallina model; tie as C01 with the "
         "C03 projection; the Python oracle restates the iff per failed attempt on every observed trace.",
@@ -77,7 +77,7 @@ CHECKS = {
         "DESIGN.md §5 C10",
     ),
     "C13": (
-        "Coq proof (case analysis of the verdict of one loop iteration against its complete event list; loop-level 'ended pass is the last') tied by in-Coq trace correspondence (projection: polls, invocations, sleeps, classifications, budget calls, kind of delivery) with abort answers at every poll index and cancellation thrown at every suspension point of hand-driven coroutines; the retry loop is additionally tied by translation on every run: _RetryState._handle_failure = Runner.handle_failure (PyIRF.v), the sleep protocol of retry_helpers.py = Runner.backoff (PyIRS.v), the loop bodies of sync_core.py / async_core.py iterated = Runner.run (PyIRL.v)",
+        "Coq proof (case analysis of the verdict of one loop iteration against its complete event list; loop-level 'ended pass is the last') tied by in-Coq trace correspondence (projection: polls, invocations, sleeps, classifications, budget calls, kind of delivery) with abort answers at every poll index and cancellation thrown at every suspension point of hand-driven coroutines; the retry loop is additionally tied by translation on every run: _RetryState._handle_failure = Runner.handle_failure (PyIRF.v), the sleep protocol of retry_helpers.py = Runner.backoff (PyIRS.v), the loop bodies of sync_core.py / async_core.py iterated = Runner.run (PyIRL.v), _RetryState.emit / check_abort / record_failure and the timeline hook = Runner.emit / Runner.check_abort / the last_fail update (PyIRE.v)",
         "Theorems C13_* (abort_if polled immediately before every attempt and, after the retry decision, before every sleep; a "
         "True answer or AbortRetryError ends the run as aborted with nothing but the `aborted` report after it; cancellation-type "
         "exceptions from the operation, before_sleep or the sleeper end the trace at that call and are delivered unchanged) for "
@@ -90,7 +90,7 @@ CHECKS = {
         RUNNER_NOTE, "DESIGN.md §4 C13, §15",
     ),
     "C16": (
-        "Coq proof (the handler/before_sleep/sleeper calls of a pass as a function of its verdict; SLEEP/DEFER/ABORT consequences; override by definition of resolve) tied by in-Coq trace correspondence (projection: handler, before_sleep, sleeper calls with placement, attempt, delay, decision; invocations; delivery kind and next_sleep_s) over all placements and decision sequences; the retry loop is additionally tied by translation on every run: _RetryState._handle_failure = Runner.handle_failure (PyIRF.v), the sleep protocol of retry_helpers.py = Runner.backoff (PyIRS.v), the loop bodies of sync_core.py / async_core.py iterated = Runner.run (PyIRL.v)",
+        "Coq proof (the handler/before_sleep/sleeper calls of a pass as a function of its verdict; SLEEP/DEFER/ABORT consequences; override by definition of resolve) tied by in-Coq trace correspondence (projection: handler, before_sleep, sleeper calls with placement, attempt, delay, decision; invocations; delivery kind and next_sleep_s) over all placements and decision sequences; the retry loop is additionally tied by translation on every run: _RetryState._handle_failure = Runner.handle_failure (PyIRF.v), the sleep protocol of retry_helpers.py = Runner.backoff (PyIRS.v), the loop bodies of sync_core.py / async_core.py iterated = Runner.run (PyIRL.v), _RetryState.emit / check_abort / record_failure and the timeline hook = Runner.emit / Runner.check_abort / the last_fail update (PyIRE.v)",
         "Theorems C16_* (handler consulted exactly once per granted, not pre-empted retry with the computed delay; SLEEP => "
         "before_sleep then exactly one sleeper call with that delay then the next attempt unless the deadline passed during the "
         "sleep; DEFER => no sleep, SCHEDULED, next_sleep_s = delay; ABORT => ABORTED; call-level overrides policy-level; no handler "
@@ -98,7 +98,7 @@ CHECKS = {
         RUNNER_NOTE, "DESIGN.md §4 C16",
     ),
     "C04": (
-        "Coq proof (the run's delivery is `deliver` of the pass that ended the loop; that pass is the last attempt; case analysis of its verdict) tied by in-Coq correspondence on what call() returns/raises (object identity by id registry, traceback frame checked by the driver); the retry loop is additionally tied by translation on every run: _RetryState._handle_failure = Runner.handle_failure (PyIRF.v), the sleep protocol of retry_helpers.py = Runner.backoff (PyIRS.v), the loop bodies of sync_core.py / async_core.py iterated = Runner.run (PyIRL.v)",
+        "Coq proof (the run's delivery is `deliver` of the pass that ended the loop; that pass is the last attempt; case analysis of its verdict) tied by in-Coq correspondence on what call() returns/raises (object identity by id registry, traceback frame checked by the driver); the retry loop is additionally tied by translation on every run: _RetryState._handle_failure = Runner.handle_failure (PyIRF.v), the sleep protocol of retry_helpers.py = Runner.backoff (PyIRS.v), the loop bodies of sync_core.py / async_core.py iterated = Runner.run (PyIRL.v), _RetryState.emit / check_abort / record_failure and the timeline hook = Runner.emit / Runner.check_abort / the last_fail update (PyIRE.v)",
         "Theorems C04_* (a final pass exists and is the last attempt; success => the value of that attempt; stop on an "
         "exception-caused failure => that attempt's own exception re-raised; stop on a result-caused failure or deferral => "
         "RetryExhaustedError with stop_reason, attempts, last_class, exactly one of last_result/last_exception and next_sleep_s "
@@ -108,7 +108,7 @@ CHECKS = {
         RUNNER_NOTE, "DESIGN.md §4 C04",
     ),
     "C05": (
-        "Coq proof (strategy calls of a pass as a function of its verdict; data-flow of the delay through the complete event list: Forall (carries d)) tied by in-Coq trace correspondence (projection: strategy calls with all arguments, delays seen by handler/before_sleep/sleeper/retry events, next_sleep_s); the retry loop is additionally tied by translation on every run: _RetryState._handle_failure = Runner.handle_failure (PyIRF.v), the sleep protocol of retry_helpers.py = Runner.backoff (PyIRS.v), the loop bodies of sync_core.py / async_core.py iterated = Runner.run (PyIRL.v)",
+        "Coq proof (strategy calls of a pass as a function of its verdict; data-flow of the delay through the complete event list: Forall (carries d)) tied by in-Coq trace correspondence (projection: strategy calls with all arguments, delays seen by handler/before_sleep/sleeper/retry events, next_sleep_s); the retry loop is additionally tied by translation on every run: _RetryState._handle_failure = Runner.handle_failure (PyIRF.v), the sleep protocol of retry_helpers.py = Runner.backoff (PyIRS.v), the loop bodies of sync_core.py / async_core.py iterated = Runner.run (PyIRL.v), _RetryState.emit / check_abort / record_failure and the timeline hook = Runner.emit / Runner.check_abort / the last_fail update (PyIRE.v)",
         "Theorems C05_* (per-class strategy else default; at most one strategy call per failed attempt, exactly one per granted "
         "retry; arguments = attempt, classification incl. retry_after_s, previous delay, remaining time, cause; legacy signature; "
         "delay = min(max(0, finite(raw)), remaining); the same delay reaches handler, before_sleep, sleeper, retry/scheduled "
@@ -116,7 +116,7 @@ CHECKS = {
         RUNNER_NOTE, "DESIGN.md §4 C05",
     ),
     "C11": (
-        "Coq proof (as C04 for the execute delivery: every RetryOutcome field as a function of the final pass and the state it leaves; attempts = number of invocations by induction over the loop) tied by in-Coq correspondence on all RetryOutcome fields / the propagating exception; the retry loop is additionally tied by translation on every run: _RetryState._handle_failure = Runner.handle_failure (PyIRF.v), the sleep protocol of retry_helpers.py = Runner.backoff (PyIRS.v), the loop bodies of sync_core.py / async_core.py iterated = Runner.run (PyIRL.v)",
+        "Coq proof (as C04 for the execute delivery: every RetryOutcome field as a function of the final pass and the state it leaves; attempts = number of invocations by induction over the loop) tied by in-Coq correspondence on all RetryOutcome fields / the propagating exception; the retry loop is additionally tied by translation on every run: _RetryState._handle_failure = Runner.handle_failure (PyIRF.v), the sleep protocol of retry_helpers.py = Runner.backoff (PyIRS.v), the loop bodies of sync_core.py / async_core.py iterated = Runner.run (PyIRL.v), _RetryState.emit / check_abort / record_failure and the timeline hook = Runner.emit / Runner.check_abort / the last_fail update (PyIRE.v)",
         "Theorems C11_* (ok iff the final attempt succeeded and then value is its result; otherwise stop_reason, attempts = "
         "#invocations, last_class, cause, exactly one of last_exception/last_result of the final processed failure, none if "
         "aborted before any failure, next_sleep_s iff deferred; only cancellation-type exceptions and a nested "
@@ -125,7 +125,7 @@ CHECKS = {
         RUNNER_NOTE, "DESIGN.md §4 C11",
     ),
     "C14": (
-        "Coq proof (the observability events of a run are the fan-out of a report sequence computed from the verdicts; grammar retry* terminal by induction over the loop; terminal report vs delivered stop reason) tied by in-Coq trace correspondence (projection: every on_metric/on_log call with arguments, captured timeline, delivered stop reason) incl. abort-sentinel scripts; the retry loop is additionally tied by translation on every run: _RetryState._handle_failure = Runner.handle_failure (PyIRF.v), the sleep protocol of retry_helpers.py = Runner.backoff (PyIRS.v), the loop bodies of sync_core.py / async_core.py iterated = Runner.run (PyIRL.v)",
+        "Coq proof (the observability events of a run are the fan-out of a report sequence computed from the verdicts; grammar retry* terminal by induction over the loop; terminal report vs delivered stop reason) tied by in-Coq trace correspondence (projection: every on_metric/on_log call with arguments, captured timeline, delivered stop reason) incl. abort-sentinel scripts; the retry loop is additionally tied by translation on every run: _RetryState._handle_failure = Runner.handle_failure (PyIRF.v), the sleep protocol of retry_helpers.py = Runner.backoff (PyIRS.v), the loop bodies of sync_core.py / async_core.py iterated = Runner.run (PyIRL.v), _RetryState.emit / check_abort / record_failure and the timeline hook = Runner.emit / Runner.check_abort / the last_fail update (PyIRE.v)",
         "Theorems C14_* (metric hook and log hook receive exactly the run's report sequence, hence the same; normal runs report "
         "retry_1..retry_n with attempt = i then exactly one terminal event; the terminal report is success / aborted (stop reason "
         "only) / named after the stop reason in the state, which is the one delivered) for the Gallina model. Timeline equality and "
@@ -134,7 +134,7 @@ CHECKS = {
         RUNNER_NOTE, "DESIGN.md §4 C14",
     ),
     "C15": (
-        "Coq proof (non-interference: runs in two worlds that differ only in which hook invocations raise are equal, by induction over the loop) tied by in-Coq full-trace correspondence with fault injection at every hook invocation index, plus silent-twin comparison on the implementation; the retry loop is additionally tied by translation on every run: _RetryState._handle_failure = Runner.handle_failure (PyIRF.v), the sleep protocol of retry_helpers.py = Runner.backoff (PyIRS.v), the loop bodies of sync_core.py / async_core.py iterated = Runner.run (PyIRL.v)",
+        "Coq proof (non-interference: runs in two worlds that differ only in which hook invocations raise are equal, by induction over the loop) tied by in-Coq full-trace correspondence with fault injection at every hook invocation index, plus silent-twin comparison on the implementation; the retry loop is additionally tied by translation on every run: _RetryState._handle_failure = Runner.handle_failure (PyIRF.v), the sleep protocol of retry_helpers.py = Runner.backoff (PyIRS.v), the loop bodies of sync_core.py / async_core.py iterated = Runner.run (PyIRL.v), _RetryState.emit / check_abort / record_failure and the timeline hook = Runner.emit / Runner.check_abort / the last_fail update (PyIRE.v)",
         "Theorems C15_* (same trace, delivery and final state incl. shared budget whatever on_metric / on_log / before_sleep "
         "invocations raise; the emission to the other sink and the timeline does not depend on the world) for the Gallina model, in "
         "which every hook call site goes through `guarded`; that the code guards every site is what the correspondence checks. "
